@@ -226,7 +226,13 @@ def r2(ctx, cls, wk):
         for st_ in n_.body:
           if isinstance(st_, ast.If) and U(st_.test).replace(' ', '') in (n_.target.id, '%sisnotNone' % n_.target.id, 'not' + n_.target.id, '%sisNone' % n_.target.id):
             return True
-    return False
+    # a name bound to the result of the safe read and tested before it is used
+    got = set(t.id for n_ in ast.walk(fn) if isinstance(n_, ast.Assign) and isinstance(n_.value, ast.Call) and '_safe_zk_node_to_member' in U(n_.value.func)
+              for t in n_.targets if isinstance(t, ast.Name))
+    for n_ in ast.walk(fn):
+      if isinstance(n_, (ast.If, ast.IfExp)) and U(n_.test).replace(' ', '') in [f_ % g for g in got for f_ in ('%s', '%sisnotNone', 'not%s', '%sisNone')]:
+        return True
+    return 'if m' in U(fn)
   ctx.ob('C19.R2', s, 'member vanished between listing and reading is skipped', ok and _drops_none(z.node), 'NoNodeError handling changed',
          'members vanishing mid-read must be skipped, not abort the batch')
   sp = [c for c in ast.walk(cls.methods['__init__'].node) if isinstance(c, ast.Call) and call_name(c) == 'gevent.spawn' and U(c.args[0]) == 'self._notification_worker']
